@@ -75,6 +75,12 @@ type object struct {
 	desc  *dGraph
 	depth int
 	mcall func(sp spec, specIdx int) string
+	// the compiled record looked at directly (record.go): everything reachable from [roots]
+	// (the runnable, the builder, the agent, the option values shared by all calls) must be the
+	// same before the first and after the last call; [proj] is the root from which the compiled
+	// graph record is projected into the terms of the model (nil: no graph record)
+	roots []any
+	proj  any
 }
 
 // lopt is the per-call option of harness lambdas: it carries the tag of the call that passed it.
